@@ -218,6 +218,20 @@ fn has_less_then_greater_with_cast(e: &Sx) -> bool {
     any_op(e, &lt) && any_op(e, &gt)
 }
 
+/// an untyped integer constant outside +-u64::MAX somewhere in the function (`generate_literal` cannot write it)
+fn has_unprintable_intlit(e: &Sx) -> bool {
+    if let Sx::L(items) = e {
+        if e.head() == "lit" && e.args().len() == 2 && e.args()[0].atom() == "intlit" {
+            return match e.args()[1].atom().parse::<i128>() {
+                Ok(v) => v > u64::MAX as i128 || v < -(u64::MAX as i128),
+                Err(_) => true, // does not even fit i128's text form the serialiser wrote: certainly out of range
+            };
+        }
+        return items.iter().any(has_unprintable_intlit);
+    }
+    false
+}
+
 /// all-literal operand lists of typed Int32 constants (the side condition `LitOK` of the theorems)
 fn litok_violations(e: &Sx) -> u64 {
     let is_i32 = |x: &Sx| x.head() == "lit" && x.args()[0].atom() == "i32";
@@ -309,6 +323,7 @@ fn run_program(src: &str, only: Option<(&str, &[Vec<V>])>, nvec: usize, rng: &mu
         );
         let unsupported = p.prog.iter().any(|g| g.contains_head("unsupported")) || p.vars.contains("unsupported") || p.globs.contains("unsupported");
         let mut fails: Vec<String> = Vec::new();
+        let mut refused_ok = false;
         // ---- observation: exporter tree + reference evaluation of the IR
         let find_fn = |m: &rssl_ast::Module| -> Option<Sx> {
             m.root_definitions.iter().find_map(|rd| match rd {
@@ -336,13 +351,29 @@ fn run_program(src: &str, only: Option<(&str, &[Vec<V>])>, nvec: usize, rng: &mu
                 format!("panic {}", panic_category(pn))
             }
             _ => {
-                fails.push("generate error".into());
+                // the exporter returned Err(GenerateError) without panicking.  The only refusal that is justified for a program
+                // of the subset: `IntLiteralOutOfRange` (fix 6017bad) for a module that really contains an untyped integer
+                // constant beyond +-u64::MAX (no literal can spell it), from both flavours, and reported by the public
+                // compile() as an error for both; nothing is emitted, so no meaning can change.  Anything else fails.
+                let why = |r: &Result<Result<rssl_ast::Module, rssl_hlsl::ExportError>, String>| match r {
+                    Ok(Err(rssl_hlsl::ExportError::GenerateError(e))) => format!("{:?}", e),
+                    Ok(Err(e)) => format!("{:?}", e),
+                    _ => "-".to_string(),
+                };
+                let (e1, e2) = (why(&ast_dx), why(&ast_vk));
+                let refused = |o: &CompileOutcome| matches!(o, CompileOutcome::Err(_));
+                if e1 == "IntLiteralOutOfRange" && e2 == e1 && p.prog.iter().any(has_unprintable_intlit) && refused(&text_dx) && refused(&text_vk) {
+                    hist.add("export-refused:IntLiteralOutOfRange");
+                    refused_ok = true;
+                } else {
+                    fails.push(format!("generate error dx={} vk={}", e1, e2));
+                }
                 "generate-error".to_string()
             }
         };
         // ---- oracle: emitted text, re-parsed, under C semantics == IR under typed semantics
         let mut skip_text = false;
-        if fails.is_empty() && !unsupported {
+        if fails.is_empty() && !unsupported && !refused_ok {
             for (flav, re) in [("dx", &re_dx), ("vk", &re_vk)] {
                 match re {
                     Err(e) if e == "parse" && p.prog.iter().any(has_assignment_in_ternary_middle) => {
@@ -400,6 +431,8 @@ fn run_program(src: &str, only: Option<(&str, &[Vec<V>])>, nvec: usize, rng: &mu
         hist.add(if unsupported { "fn:unsupported" } else { "fn:supported" });
         let oracle = if !fails.is_empty() {
             format!("FAIL:{}", fails[0])
+        } else if refused_ok {
+            "ok(export refused with IntLiteralOutOfRange: the module has an integer constant no literal can spell; nothing is emitted)".to_string()
         } else if skip_text {
             "ok(text oracle not available: rssl cannot re-parse its own output here, see notes)".to_string()
         } else {
